@@ -1,11 +1,13 @@
 /-
   Line-protocol components for JRV.Model.Pool:
 
-    pool <max> <min> <qbound> <nclients> <singleCtl 0|1> <action>*
-        action = <role>:<label>[:<branch>]   (see harness/poolcommon.py for the alphabet)
+    pool <max> <min> <qbound> <nclients> <flags> <action>*
+        flags  = bit 0: singleCtl, bit 1: startMayFail (Thread.start() may raise), bit 2: timeoutNone (timeout=None)
+        action = <role>:<label>[:<branch>]   (see harness/poolcommon.py for the alphabet; branch `timeout`, or
+                 `startfail` on the `event.is_set` of `__start_thread`: the flag is clear and Thread.start() raises)
         answer = projections after every action, separated by " | "; an action that the model says is
         disabled answers "DISABLED" at that position and stops; an unreadable token answers "bad-op".
-    poolctor <arg> <arg> <arg>      arg = i<int> | f<trunc int> | s<int> | sx (string int() rejects) | n | o
+    poolctor <arg> <arg> <arg>      arg = i<int> | f<trunc int> | finf | f-inf | fnan | s<int> | sx (string int() rejects) | n | o
         answer = "ok <max> <min> <qbound>" | "err ValueError"
 -/
 import JRV.Model.Pool
@@ -77,7 +79,8 @@ def parseOp? (label : String) (extra : List String) : Option (Op × Bool) :=
   let plain (o : Op) : Option (Op × Bool) :=
     match extra with
     | [] => some (o, false)
-    | ["timeout"] => some (o, true)
+    | ["timeout"] => if o = .eventIsSet then none else some (o, true)
+    | ["startfail"] => if o = .eventIsSet then some (o, true) else none
     | _ => none
   match label with
   | "call.start" => plain .callStart
@@ -136,7 +139,8 @@ def poolC (toks : List String) : String :=
   | mx :: mn :: qb :: nc :: sc :: acts =>
     match mx.toNat?, mn.toNat?, qb.toNat?, nc.toNat?, sc.toNat? with
     | some mx, some mn, some qb, some nc, some sc =>
-      let cfg : Config := { max := mx, min := mn, qbound := qb, singleCtl := sc != 0 }
+      let cfg : Config := { max := mx, min := mn, qbound := qb, singleCtl := sc % 2 != 0,
+                            startMayFail := sc / 2 % 2 != 0, timeoutNone := sc / 4 % 2 != 0 }
       " | ".intercalate (runShow (init cfg nc) acts)
     | _, _, _, _, _ => "bad-op"
   | _ => "bad-op"
@@ -146,6 +150,9 @@ def parseArg? (s : String) : Option Arg :=
   | ['n'] => some .none
   | ['o'] => some .other
   | ['s', 'x'] => some (.str none)
+  | ['f', 'i', 'n', 'f'] => some (.floatInf false)
+  | ['f', '-', 'i', 'n', 'f'] => some (.floatInf true)
+  | ['f', 'n', 'a', 'n'] => some .floatNan
   | 'i' :: rest => (String.ofList rest).toInt?.map Arg.int
   | 'f' :: rest => (String.ofList rest).toInt?.map Arg.float
   | 's' :: rest => (String.ofList rest).toInt?.map fun i => Arg.str (some i)
